@@ -16,7 +16,9 @@ Trace == ndJsonDeserialize(TraceFile)
 
 VARIABLES l, tid,
           vs,     \* [Honest -> set of views the member had so far]
-          cq,     \* [Honest -> set of lists for which the query guard held at some point]
+          cv,     \* [Honest -> set of common views a Range over the announced views could have seen so far]
+          cq,     \* [Honest -> set of lists for which the query guard held at some point (common view seen earlier or now,
+                  \*             own view now)]
           q,      \* [Honest -> queried list or <<>>]
           resp,   \* [Honest -> {<<peer, view>>}] first response delivered per peer
           pend,   \* [Honest -> set of replies the model expects the member to send next]
@@ -26,7 +28,7 @@ VARIABLES l, tid,
           pan,    \* observed panic
           drift, viol
 
-tvars == <<vars, l, tid, vs, cq, q, resp, pend, dn, rt, started, pan, drift, viol>>
+tvars == <<vars, l, tid, vs, cv, cq, q, resp, pend, dn, rt, started, pan, drift, viol>>
 
 Rng(s) == {s[i] : i \in DOMAIN s}
 Line == Trace[l]
@@ -34,7 +36,7 @@ Line == Trace[l]
 Blank(x) == [m \in Honest |-> x]
 
 TInit == /\ Init /\ l = 1 /\ tid = -1
-         /\ vs = Blank({}) /\ cq = Blank({}) /\ q = Blank(<<>>) /\ resp = Blank({}) /\ pend = Blank({})
+         /\ vs = Blank({}) /\ cv = Blank({}) /\ cq = Blank({}) /\ q = Blank(<<>>) /\ resp = Blank({}) /\ pend = Blank({})
          /\ dn = {} /\ rt = {} /\ started = {} /\ pan = FALSE /\ drift = "" /\ viol = {}
 
 DoneFn == [m \in {d[1] : d \in dn} |-> (CHOOSE d \in dn : d[1] = m)[2]]
@@ -60,22 +62,22 @@ SetDrift(d) == drift' = IF drift = "" /\ d # "" THEN d \o " @line " \o ToString(
 Reset ==
   /\ Line.e = "reset"
   /\ ph' = [m \in Honest |-> "idle"] /\ mv' = Blank({}) /\ rs' = Blank({}) /\ rq' = Blank(<<>>)
-  /\ al' = Blank(0) /\ fin' = Blank(<<>>) /\ links' = links /\ inj' = 0 /\ injected' = {} /\ hist' = <<>>
-  /\ tid' = Line.t /\ vs' = Blank({}) /\ cq' = Blank({}) /\ q' = Blank(<<>>) /\ resp' = Blank({}) /\ pend' = Blank({})
+  /\ al' = Blank(0) /\ fin' = Blank(<<>>) /\ sv' = Blank(NoSnap) /\ links' = links /\ inj' = 0 /\ injected' = {} /\ hist' = <<>>
+  /\ tid' = Line.t /\ vs' = Blank({}) /\ cv' = Blank({}) /\ cq' = Blank({}) /\ q' = Blank(<<>>) /\ resp' = Blank({}) /\ pend' = Blank({})
   /\ dn' = {} /\ rt' = {} /\ started' = {} /\ pan' = FALSE /\ drift' = "" /\ viol' = {}
 
-\* lists for which the probing loop may break out, in the model state described by (mvm) of member m
-Guard(m, mvm) ==
-  LET peers == {e[1] : e \in mvm}
-      mine  == Sorted({m} \cup peers) IN
-  IF peers # {} /\ (\A e \in mvm : e[2] = mine) /\ Len(mine) >= E THEN {mine} ELSE {}
+\* lists for which the probing loop may break out: a common announced view seen by the Range at this or an earlier state
+\* (cvs), equal to the own view computed from the current key set, of sufficient size
+Guard(m, mvm, cvs) ==
+  LET mine == Sorted({m} \cup {e[1] : e \in mvm}) IN
+  IF mine \in cvs /\ Len(mine) >= E THEN {mine} ELSE {}
 
 StartEv ==
   /\ Line.e = "start" /\ Line.m \in Honest
   /\ ph' = [ph EXCEPT ![Line.m] = "probing"]
   /\ started' = started \cup {Line.m}
   /\ vs' = [vs EXCEPT ![Line.m] = {<<Line.m>>}]
-  /\ UNCHANGED <<mv, rs, rq, al, fin, links, inj, injected, hist, tid, cq, q, resp, pend, dn, rt, pan, drift, viol>>
+  /\ UNCHANGED <<mv, rs, rq, al, fin, sv, links, inj, injected, hist, tid, cv, cq, q, resp, pend, dn, rt, pan, drift, viol>>
 
 DeliverEv ==
   /\ Line.e = "deliver"
@@ -88,10 +90,12 @@ DeliverEv ==
         /\ rs' = [rs EXCEPT ![m] = res.rs]
         /\ resp' = [resp EXCEPT ![m] = @ \cup newresp]
         /\ vs' = [vs EXCEPT ![m] = IF ph[m] = "idle" THEN @ ELSE @ \cup {Sorted({m} \cup {e[1] : e \in res.mv})}]
-        /\ cq' = [cq EXCEPT ![m] = IF ph[m] = "idle" THEN @ ELSE @ \cup Guard(m, res.mv)]
+        /\ cv' = [cv EXCEPT ![m] = IF ph[m] = "idle" \/ Common(res.mv) = Mixed THEN @ ELSE @ \cup {Common(res.mv)}]
+        /\ cq' = [cq EXCEPT ![m] = IF ph[m] = "idle" THEN @
+                                   ELSE @ \cup Guard(m, res.mv, IF Common(res.mv) = Mixed THEN cv[m] ELSE cv[m] \cup {Common(res.mv)})]
         /\ pend' = [pend EXCEPT ![m] = {[to |-> p, view |-> r.view] : r \in res.reply}]
         /\ SetDrift(IF pend[m] # {} THEN "a reply the model expects was never sent" ELSE "")
-  /\ UNCHANGED <<ph, rq, al, fin, links, inj, injected, hist, tid, q, dn, rt, started, pan, viol>>
+  /\ UNCHANGED <<ph, rq, al, fin, sv, links, inj, injected, hist, tid, q, dn, rt, started, pan, viol>>
 
 OutEv ==
   /\ Line.e = "out"
@@ -111,7 +115,7 @@ OutEv ==
                /\ pend' = [pend EXCEPT ![m] = {}]
                /\ UNCHANGED q
           [] OTHER -> SetDrift("undecodable message sent") /\ UNCHANGED <<q, pend>>
-  /\ UNCHANGED <<vars, tid, vs, cq, resp, dn, rt, started, pan, viol>>
+  /\ UNCHANGED <<vars, tid, vs, cv, cq, resp, dn, rt, started, pan, viol>>
 
 DoneEv ==
   /\ Line.e = "done"
@@ -121,26 +125,26 @@ DoneEv ==
      /\ SetDrift(IF Line.list = q[m] /\ Cardinality({r \in resp[m] : r[2] = Line.list}) >= E - 1
                    THEN "" ELSE "completion not justified (query / matching responses)")
      /\ Report(dn2, rt, started, pan, FALSE, FALSE)
-  /\ UNCHANGED <<vars, tid, vs, cq, q, resp, pend, rt, started, pan>>
+  /\ UNCHANGED <<vars, tid, vs, cv, cq, q, resp, pend, rt, started, pan>>
 
 RetEv ==
   /\ Line.e = "ret"
   /\ LET rt2 == rt \cup {<<Line.m, IF Line.err = "" THEN "ok" ELSE "err">>} IN
      /\ rt' = rt2
      /\ Report(dn, rt2, started, pan, FALSE, FALSE)
-  /\ UNCHANGED <<vars, tid, vs, cq, q, resp, pend, dn, started, pan, drift>>
+  /\ UNCHANGED <<vars, tid, vs, cv, cq, q, resp, pend, dn, started, pan, drift>>
 
 PanicEv ==
   /\ Line.e = "panic"
   /\ pan' = TRUE
   /\ Report(dn, rt, started, TRUE, FALSE, FALSE)
-  /\ UNCHANGED <<vars, tid, vs, cq, q, resp, pend, dn, rt, started, drift>>
+  /\ UNCHANGED <<vars, tid, vs, cv, cq, q, resp, pend, dn, rt, started, drift>>
 
 EndEv ==
   /\ Line.e = "end"
   /\ Report(dn, rt, started, pan, TRUE, Line.hung)
   /\ PrintT(<<"END", ToJson([t |-> tid, drift |-> drift, done |-> Cardinality(dn)])>>)
-  /\ UNCHANGED <<vars, tid, vs, cq, q, resp, pend, dn, rt, started, pan, drift>>
+  /\ UNCHANGED <<vars, tid, vs, cv, cq, q, resp, pend, dn, rt, started, pan, drift>>
 
 TNext == /\ l <= Len(Trace)
          /\ l' = l + 1
